@@ -407,7 +407,9 @@ def rule_r4(ctx, rep):
                     if isinstance(gv, tuple):
                         res = gv
                     done_gv = True
-                except PEvalUnsupported:
+                except PEvalUnsupported as _ex:
+                    import os as _os
+                    if _os.environ.get("SA_DEBUG"): print("gv unsupported:", _ex)
                     done_gv = False
             for (g, in_body) in ([] if done_gv else guards):
                 # predicate guards on the raw content (is_float(...)) hold for every numeric point
@@ -514,7 +516,11 @@ def rule_r6(ctx, rep):
             elif code == "CONTENT_EXPECTED_ENUM":
                 cases = [({"c": "a"}, False), ({"c": "zz"}, True), ({"c": None}, True), ({"c": ""}, True)]
             elif code in typed:
-                cases = [({"c": "x", "pred": True}, False), ({"c": "x", "pred": False}, True),
+                # the literal agrees with the stubbed predicate outcome, so a checker that parses the text itself (try: float(...))
+                # is judged on the same points as one that asks the predicate
+                good = {"CONTENT_EXPECTED_FLOAT": "1.5", "CONTENT_EXPECTED_INT": "15", "CONTENT_EXPECTED_TIME_FORMAT": "10:30:00",
+                        "CONTENT_EXPECTED_URI": "http://a.b/c", "CONTENT_EXPECTED_YEAR_FORMAT": "2020"}[code]
+                cases = [({"c": good, "pred": True}, False), ({"c": "x", "pred": False}, True),
                          ({"c": "", "pred": False}, True),     # the empty string is content, and no typed predicate accepts it
                          ({"c": None, "pred": False}, False)]  # absent content is not the typed checkers' business
             if not cases or (fi.qname, code) in seen:
@@ -606,6 +612,66 @@ def rule_r7(ctx, rep):
     rep.floor("uses of the value in typed predicates", 10)
 
 
+TYPED_ARMS = {"floatContent": "1.5", "floatRangeContent_EW": "1.5", "floatRangeContent_NS": "1.5", "floatContent_Nonnegative": "1.5", "intContent": "15",
+              "timeContent": "10:30:00", "uriContent": "http://a.b/c", "yearDateContent": "2020"}
+
+
+def rule_r8(ctx, rep):
+    """the decision of a whole typed arm, as the dispatch calls it, over {predicate holds, fails} x {fail-fast, collecting}: text that
+    is not of the type is rejected (a rule error raised / the error list grows), a canonical in-range value is accepted.  This ties
+    the ranged checkers to the type check they delegate to: a ranged arm that only tests the range of what parses accepts `abc`."""
+    prog = ctx.prog
+    w = ctx.world
+    fi, loop, var, arms, fall = content_dispatch(prog)
+    h = ctx.hier
+    preds = {m.qname for m in prog.cls(RULE_Q).methods.values() if m.kind == "static" and m.name.startswith("is_")}
+    mp = mode_params(ctx, reachable(ctx, [fi])).get(fi.qname)
+    nodep = next((x for x in fi.params if w.types(fi).env.get(x) == "Node"), None)
+    if mp is None or nodep is None:
+        raise AnalysisError("anchor vanished: mode / node parameter of Rule._validate_content")
+    for name, good in sorted(TYPED_ARMS.items()):
+        if name not in arms:
+            continue
+        for (content, holds, want_reject) in ((good, True, False), ("abc", False, True)):
+            for mode in ("ff", "collect"):
+                pe = PEval(w)
+                for q in preds:
+                    pe.stubs[q] = holds
+                errs = None if mode == "ff" else []
+                env = {nodep: {"__obj__": True, "content": content, "_content": content, "name": "n", "_name": "n", "children": [], "_children": []},
+                       mp: errs, var: name}
+                if fi.bound:
+                    env[fi.params[0]] = {"__obj__": True}
+                for x in fi.params:
+                    env.setdefault(x, False)
+                try:
+                    pe.block(arms[name], env, fi, 0)
+                    got = bool(errs)
+                    how = "reported" if got else "accepted"
+                except Raised as r:
+                    cls = r.cls or ""
+                    if h.issub(cls, RULE_ERR):
+                        got, how = True, "rejected"
+                    else:
+                        continue  # an escaping non-rule exception is R2's finding, not a decision of the arm
+                except PEvalUnsupported as ex:
+                    rep.notes.append(f"arm '{name}' not folded for content {content!r}: {ex}")
+                    continue
+                except Exception as ex:  # loop-control signals of the folder (continue / break arms)
+                    if type(ex).__name__ in ("_Cnt", "_Brk", "_Ret"):
+                        got, how = bool(errs), ("reported" if errs else "accepted")
+                    else:
+                        raise
+                rep.count("typed arm verdicts")
+                ok = got == want_reject
+                rep.oblige(("R8", name, content, mode), ok, sample={"arm": name, "content": content, "type predicate": holds, "mode": mode, "outcome": how})
+                if not ok:
+                    rep.add("R8", fi.qname, f"arm '{name}'", f"content {content!r} ({'of' if holds else 'not of'} the type) is {how} by the '{name}' arm in "
+                            f"{'fail-fast' if mode == 'ff' else 'collecting'} mode; the constraint requires it to be {'rejected' if want_reject else 'accepted'}",
+                            fi.loc(arms[name][0]))
+    rep.floor("typed arm verdicts", 16)
+
+
 def run(ctx, rep):
     rep.explanation = (
         "dispatch exhaustiveness against rules.json and kind agreement of every arm with its checker (parse primitive + error "
@@ -613,12 +679,12 @@ def run(ctx, rep):
         "every error/warning code reference names a declared member; the reject conditions of the ranged kinds and of the "
         "non-empty check evaluated over an abstract domain (boundaries, +-inf, NaN; content x children x flag) with interval "
         "constants propagated from the dispatch arm")
-    rep.rules_run = ["R1", "R2", "R3", "R4", "R5", "R6", "R7"]
+    rep.rules_run = ["R1", "R2", "R3", "R4", "R5", "R6", "R7", "R8"]
     rep.assumptions += [
         "NOT decided: the lexical acceptance of float(), int(), strptime, time.fromisoformat and rfc3986 (library semantics)",
         "R4 evaluates the guard conditions, not the parsers: a value is represented by the float it parses to",
     ]
     only = getattr(rep, "only", None)
-    for name, fn in (("R1", rule_r1), ("R2", rule_r2), ("R3", rule_r3), ("R4", rule_r4), ("R5", rule_r5), ("R6", rule_r6), ("R7", rule_r7)):
+    for name, fn in (("R1", rule_r1), ("R2", rule_r2), ("R3", rule_r3), ("R4", rule_r4), ("R5", rule_r5), ("R6", rule_r6), ("R7", rule_r7), ("R8", rule_r8)):
         if only in (None, name):
             fn(ctx, rep)
